@@ -183,6 +183,45 @@ def main():
     assert g == [(1, 'a'), (1, 'b'), (2, 'a'), (3, 'a')], g
     cfg = {'deep': False, 'dev': 99}
     assert c11._grid(cfg, [1, 2, 3], ['a', 'b']) == [(1, 'a'), (1, 'b'), (2, 'a'), (2, 'b')]
+    # a tuple dimension is never cut by the quick tier
+    assert c11._grid({'deep': False, 'dev': 1}, [1, 2, 3], ('a', 'b', 'c')) == \
+        [(1, 'a'), (1, 'b'), (1, 'c'), (2, 'a')]
+
+    # random order owned by the harness: seeded per fresh state, carried over on resumption,
+    # drawn orders recorded; a reference-loop finding is reported under its own symptom
+    np.random.permutation = c11._recording_permutation
+    try:
+        del c11._PERMS[:]
+
+        def rnd(st, n, cb, hoist=False):
+            c11._seeded(st, 3)
+            o = np.random.permutation(range(3)) if hoist else None
+            for _ in range(n):
+                if not hoist:
+                    o = np.random.permutation(range(3))
+                st['x'].lincomb(0.5, st['x'], float(o[0]), st['y'])
+                st['y'] += 1
+                if cb is not None:
+                    cb(st['x'])
+
+        def rnd_ref(st, n):
+            rnd(st, n, None)
+        assert symptoms(c11.Case('p', fresh, rnd, rnd_ref, keys=('x', 'y'),
+                                 resumable=True))[0] == []
+        calls = [g for g in c11._PERMS if g]
+        assert any(o != sorted(o) for g in calls for o in g)
+        assert any(len(set(map(tuple, g))) > 1 for g in calls)
+        s, _ = symptoms(c11.Case('p', fresh, lambda st, n, cb: rnd(st, n, cb, True), rnd_ref,
+                                 keys=('x', 'y'), resumable=True))
+        assert 'iterate_differs_from_reference' in s and 'split_run_differs' in s, s
+
+        def finding_ref(st, n):
+            raise c11._Finding('order_not_drawn_once_per_iteration', 'planted')
+        assert symptoms(c11.Case('p', fresh, rnd, finding_ref, keys=('x', 'y')))[0] == \
+            ['order_not_drawn_once_per_iteration']
+    finally:
+        np.random.permutation = c11._ORIG_PERMUTATION
+        del c11._PERMS[:]
     # every configuration is unique and JSON-serialisable, simplest (small pools) first
     import json
     for tier in ('quick', 'thorough'):
